@@ -142,6 +142,48 @@ def texts(tier):
     return out
 
 
+
+def check_combine(chk, F, rid="R15.7"):
+    # R15.7 TapTree::combine
+    chk.rule(rid, "TapTree::combine(l, r) is the tree with l's leaves then r's leaves, each one level deeper, and fails "
+                      "exactly when a leaf would end deeper than 128 (BIP-341's control block limit); depth lists include "
+                      "the boundary depths 126, 127, 128")
+    cb = [p_ for p_ in F.fns if p_.endswith("TapTree::<Pk>::combine")]
+    if len(cb) != 1:
+        chk.fail(rid, "anchor", "TapTree::combine not found", kind="unanalysable")
+    else:
+        chk.saw(cb[0])
+        m4 = Machine(F, strict=True)
+
+        def tree_of(depths, tag):
+            return Adt(TAPTREE, "TapTree", {"depths_leaves": PyVec([
+                (d, Adt(MS, "Miniscript", {"node": Term("leafnode", "%s%d" % (tag, i)), "ty": Term("ty"), "ext": Term("ext"),
+                                           "phantom": (), "leafname": "%s%d" % (tag, i)})) for i, d in enumerate(depths)])})
+        sides = [[0], [1, 1], [1, 2, 2], [2, 2, 1], [126, 126], [127, 127], [1, 127, 127], [128, 128], [1, 2, 128, 128],
+                 [127, 128, 128], list(range(1, 128)) + [127], list(range(1, 129)) + [128]]
+        n7 = 0
+        for ld, rd in itertools.product(sides, sides):
+            key = "%s+%s" % ("/".join(map(str, ld[:3] + ld[-1:])) + ":%d" % len(ld), "/".join(map(str, rd[:3] + rd[-1:])) + ":%d" % len(rd))
+            n7 += 1
+            try:
+                r = m4.call_callee({"def": cb[0], "resolved": cb[0], "name": "combine", "targs": ["PK"]},
+                                   [tree_of(ld, "l"), tree_of(rd, "r")])
+                want = None if max(ld + rd) + 1 > 128 else \
+                    [(d + 1, "l%d" % i) for i, d in enumerate(ld)] + [(d + 1, "r%d" % i) for i, d in enumerate(rd)]
+                got = [(d, x.fields["leafname"]) for d, x in r.fields["0"].fields["depths_leaves"].items] \
+                    if r.variant == "Ok" else None
+                chk.obligation(rid, got == want, key, "combine gives %s, expected %s" % (
+                    "an error" if got is None else "leaves %r.." % (got[:3],),
+                    "an error (a leaf deeper than 128)" if want is None else "leaves %r.." % (want[:3],)),
+                    where="src/descriptor/tr/taptree.rs")
+            except Panic as e:
+                chk.fail(rid, key, "combine panics: %s" % e, where="src/descriptor/tr/taptree.rs")
+            except Unsupported as e:
+                chk.fail(rid, "unanalysable:" + key, "unanalysable: %s" % e, where=e.where, kind="unanalysable")
+                break
+        chk.floor(rid, "depth-list pairs", n7, 140)
+
+
 def run(chk):
     F = chk.facts()
     chk.explanation = __doc__
@@ -255,44 +297,7 @@ def run(chk):
             except Unsupported as e:
                 chk.fail("R15.6", "unanalysable:" + key, "unanalysable: %s" % e, where=e.where, kind="unanalysable")
                 break
-    # R15.7 TapTree::combine
-    chk.rule("R15.7", "TapTree::combine(l, r) is the tree with l's leaves then r's leaves, each one level deeper, and fails "
-                      "exactly when a leaf would end deeper than 128 (BIP-341's control block limit); depth lists include "
-                      "the boundary depths 126, 127, 128")
-    cb = [p_ for p_ in F.fns if p_.endswith("TapTree::<Pk>::combine")]
-    if len(cb) != 1:
-        chk.fail("R15.7", "anchor", "TapTree::combine not found", kind="unanalysable")
-    else:
-        chk.saw(cb[0])
-        m4 = Machine(F, strict=True)
-
-        def tree_of(depths, tag):
-            return Adt(TAPTREE, "TapTree", {"depths_leaves": PyVec([
-                (d, Adt(MS, "Miniscript", {"node": Term("leafnode", "%s%d" % (tag, i)), "ty": Term("ty"), "ext": Term("ext"),
-                                           "phantom": (), "leafname": "%s%d" % (tag, i)})) for i, d in enumerate(depths)])})
-        sides = [[0], [1, 1], [1, 2, 2], [2, 2, 1], [126, 126], [127, 127], [1, 127, 127], [128, 128], [1, 2, 128, 128],
-                 [127, 128, 128], list(range(1, 128)) + [127], list(range(1, 129)) + [128]]
-        n7 = 0
-        for ld, rd in itertools.product(sides, sides):
-            key = "%s+%s" % ("/".join(map(str, ld[:3] + ld[-1:])) + ":%d" % len(ld), "/".join(map(str, rd[:3] + rd[-1:])) + ":%d" % len(rd))
-            n7 += 1
-            try:
-                r = m4.call_callee({"def": cb[0], "resolved": cb[0], "name": "combine", "targs": ["PK"]},
-                                   [tree_of(ld, "l"), tree_of(rd, "r")])
-                want = None if max(ld + rd) + 1 > 128 else \
-                    [(d + 1, "l%d" % i) for i, d in enumerate(ld)] + [(d + 1, "r%d" % i) for i, d in enumerate(rd)]
-                got = [(d, x.fields["leafname"]) for d, x in r.fields["0"].fields["depths_leaves"].items] \
-                    if r.variant == "Ok" else None
-                chk.obligation("R15.7", got == want, key, "combine gives %s, expected %s" % (
-                    "an error" if got is None else "leaves %r.." % (got[:3],),
-                    "an error (a leaf deeper than 128)" if want is None else "leaves %r.." % (want[:3],)),
-                    where="src/descriptor/tr/taptree.rs")
-            except Panic as e:
-                chk.fail("R15.7", key, "combine panics: %s" % e, where="src/descriptor/tr/taptree.rs")
-            except Unsupported as e:
-                chk.fail("R15.7", "unanalysable:" + key, "unanalysable: %s" % e, where=e.where, kind="unanalysable")
-                break
-        chk.floor("R15.7", "depth-list pairs", n7, 140)
+    check_combine(chk, F, "R15.7")
     # R15.8 TrSpendInfo::to_tap_tree (what a PSBT output carries)
     chk.rule("R15.8", "TrSpendInfo::to_tap_tree hands rust-bitcoin's builder exactly the leaves of the tree - each with its own "
                       "depth, script and the tapscript leaf version, in tree order - and is None exactly for a key-only output")
